@@ -80,13 +80,8 @@ func (a *AttrConditionPlanner) maybeCreateWhere() error {
 			return err
 		}
 		a.sqlConds = append(a.sqlConds, sqlTerm)
-
-		if !strings.HasPrefix(t.Label, "span.") &&
-			!strings.HasPrefix(t.Label, "resource.") &&
-			!strings.HasPrefix(t.Label, ".") &&
-			t.Label != "name" {
-			continue
-		}
+		// every term, `duration` comparisons included, has to admit its rows: a span
+		// can satisfy the condition tree through a duration term alone
 		a.where = append(a.where, sqlTerm)
 	}
 	return nil
